@@ -3,6 +3,7 @@
 //	vh-bloom replay <behaviours.ndjson> <suspects.ndjson>   TLC behaviours -> real filter built with stub hashers that
 //	                                                         realise the bit positions chosen by TLC; compares answers + bits
 //	vh-bloom record <seed> <traces> <len> <out.ndjson>      random histories on real filters (real hashers, real sizes)
+//	vh-bloom conc <scenarios.ndjson> <rounds> <seed> <out>  concurrent no-false-negative rounds (scenarios from BloomAtomicity.tla)
 //	vh-bloom race <scenarios.ndjson> <iters>                TLC-enumerated concurrent scenarios under the race detector
 //	vh-bloom batch <iters> <file> <from> <to>               (child of `race`)
 package main
@@ -13,8 +14,11 @@ import (
 	"math/rand"
 	"os"
 	"regexp"
+	"runtime"
 	"sort"
 	"strconv"
+	"sync"
+	"sync/atomic"
 
 	"github.com/ElrondNetwork/elrond-go/hashing"
 	"github.com/ElrondNetwork/elrond-go/hashing/blake2b"
@@ -272,6 +276,195 @@ func record(seed int64, traces, n int, out string) {
 	vtrace.Stat("distinct", distinct.Len())
 }
 
+// ---- concurrent no-false-negative stage (atomicity of Add's read-modify-write)
+
+type ans struct {
+	K string `json:"k"`
+	R bool   `json:"r"`
+}
+
+// round releases len(keysPerG) goroutines from a spin barrier; goroutine g adds its own keys one by one and asks
+// MayContain for each key right after its Add returned (the others are still adding); after the join every key
+// is asked again. Nothing is judged here: the answers and the final bits are logged for TLC.
+func round(f *bloom.Bloom, keysPerG [][]string) (inrun, after []ans) {
+	n := int32(len(keysPerG))
+	var ready int32
+	var wg sync.WaitGroup
+	res := make([][]ans, len(keysPerG))
+	for g := range keysPerG {
+		wg.Add(1)
+		go func(g int) {
+			defer wg.Done()
+			atomic.AddInt32(&ready, 1)
+			for spins := 0; atomic.LoadInt32(&ready) < n; spins++ {
+				if spins%64 == 63 {
+					runtime.Gosched()
+				}
+			}
+			for _, k := range keysPerG[g] {
+				f.Add([]byte(k))
+				res[g] = append(res[g], ans{K: k, R: f.MayContain([]byte(k))})
+			}
+		}(g)
+	}
+	wg.Wait()
+	inrun, after = []ans{}, []ans{}
+	for g := range keysPerG {
+		inrun = append(inrun, res[g]...)
+		for _, k := range keysPerG[g] {
+			after = append(after, ans{K: k, R: f.MayContain([]byte(k))})
+		}
+	}
+	return inrun, after
+}
+
+func allTrue(a []ans) bool {
+	for _, x := range a {
+		if !x.R {
+			return false
+		}
+	}
+	return true
+}
+
+func conc(path string, rounds int, seed int64, out string) {
+	bs, err := vtrace.ReadBehaviours(path)
+	if err != nil {
+		vtrace.Broken(err.Error())
+		return
+	}
+	w, err := vtrace.NewWriter(out)
+	if err != nil {
+		vtrace.Broken(err.Error())
+		return
+	}
+	if runtime.GOMAXPROCS(0) < 4 {
+		runtime.GOMAXPROCS(4)
+	}
+	rng := rand.New(rand.NewSource(seed))
+	seen := map[string]bool{}
+	nRounds, nAdds, nAnswers, suspicious, nScen := 0, 0, 0, 0, 0
+	distinct := vtrace.NewDistinct()
+	emit := func(nbytes, nh int, pos M, keysPerG [][]string, f *bloom.Bloom) bool {
+		inrun, after := round(f, keysPerG)
+		bits, ok := bitsOf(f)
+		if !ok {
+			vtrace.Broken("cannot project the filter bytes (field `filter` of bloom.Bloom)")
+			return false
+		}
+		keys := []string{}
+		for _, ks := range keysPerG {
+			keys = append(keys, ks...)
+		}
+		w.Emit("Round", M{"nbytes": nbytes, "nh": nh, "pos": pos, "keys": keys}, M{"inrun": inrun, "after": after}, M{"bits": bits})
+		nRounds++
+		nAdds += len(keys)
+		nAnswers += len(inrun) + len(after)
+		return allTrue(inrun) && allTrue(after)
+	}
+	for _, b := range bs {
+		if len(b) == 0 || b[len(b)-1].A != "Concurrent" {
+			continue
+		}
+		in := b[len(b)-1].In
+		key := fmt.Sprint(in)
+		if seen[key] {
+			continue
+		}
+		seen[key] = true
+		nScen++
+		n, nbytes := vtrace.Int(in["threads"]), vtrace.Int(in["nbytes"])
+		positions := vtrace.Ints(in["pos"])
+		labelled, _ := b[len(b)-1].Out["loses_bit_if_split"].(bool)
+		r := rounds
+		if !labelled {
+			r = rounds / 5
+		}
+		// (a) the placement chosen by TLC, imposed through a stub hasher: goroutine g adds key "g<g>" -> bit positions[g].
+		// For the placement in which the goroutines share a byte the same pattern (goroutine g owns bit g of the
+		// byte) is repeated on every byte of the filter, so one round holds nbytes collisions instead of one.
+		pm := map[string][]int{}
+		pos := M{}
+		keysPerG := make([][]string, n)
+		for g := 0; g < n; g++ {
+			k := fmt.Sprintf("g%d", g)
+			pm[k] = []int{positions[g]}
+			pos[k] = []int{positions[g]}
+			keysPerG[g] = []string{k}
+			if !labelled {
+				continue
+			}
+			for b := 0; b < nbytes; b++ {
+				if b == positions[g]/8 {
+					continue
+				}
+				kb := fmt.Sprintf("g%db%d", g, b)
+				p := 8*b + positions[g]%8
+				pm[kb] = []int{p}
+				pos[kb] = []int{p}
+				keysPerG[g] = append(keysPerG[g], kb)
+			}
+		}
+		distinct.Add("stub/" + key)
+		for i := 0; i < r; i++ {
+			f, ferr := bloom.NewFilter(uint(nbytes), []hashing.Hasher{&stubHasher{j: 0, pos: pm}})
+			if ferr != nil {
+				vtrace.Broken(ferr.Error())
+				return
+			}
+			if !emit(nbytes, 1, pos, keysPerG, f) {
+				suspicious++
+				break // TLC judges the logged round; no need to look for a second one in this scenario
+			}
+		}
+		// (b) for the placements in which a split read-modify-write can lose a bit: the same number of goroutines on
+		// small real filters (real hashers, 2 fresh keys per goroutine per round, so goroutines collide on bytes)
+		if !labelled {
+			continue
+		}
+		for _, sz := range []int{8, 16, 64} {
+			hs := []hashing.Hasher{keccak.NewKeccak(), fnv.NewFnv()}
+			distinct.Add(fmt.Sprintf("real/%d/%d", n, sz))
+			for i := 0; i < r/6; i++ {
+				pos := M{}
+				keysPerG := make([][]string, n)
+				for g := 0; g < n; g++ {
+					for j := 0; j < 2; j++ {
+						k := fmt.Sprintf("r%d_%d_%x", g, j, rng.Int63())
+						probe, _ := bloom.NewFilter(uint(sz), hs)
+						probe.Add([]byte(k))
+						pb, _ := bitsOf(probe)
+						pos[k] = pb
+						keysPerG[g] = append(keysPerG[g], k)
+					}
+				}
+				f, ferr := bloom.NewFilter(uint(sz), hs)
+				if ferr != nil {
+					vtrace.Broken(ferr.Error())
+					return
+				}
+				if !emit(sz, len(hs), pos, keysPerG, f) {
+					suspicious++
+					break
+				}
+			}
+		}
+	}
+	if err := w.Close(); err != nil {
+		vtrace.Broken(err.Error())
+	}
+	if nScen == 0 {
+		vtrace.Broken("no concurrent scenario in " + path)
+	}
+	vtrace.Stat("scenarios", nScen)
+	vtrace.Stat("distinct", distinct.Len())
+	vtrace.Stat("rounds", nRounds)
+	vtrace.Stat("adds", nAdds)
+	vtrace.Stat("answers", nAnswers)
+	vtrace.Stat("rounds_with_a_false_answer", suspicious)
+	vtrace.Stat("events", w.N)
+}
+
 // ---- race half
 
 var methodRe = regexp.MustCompile(`storage/bloom\.\(\*Bloom\)\.(\w+)$`)
@@ -332,6 +525,10 @@ func main() {
 		traces, _ := strconv.Atoi(os.Args[3])
 		n, _ := strconv.Atoi(os.Args[4])
 		record(seed, traces, n, os.Args[5])
+	case "conc":
+		rounds, _ := strconv.Atoi(os.Args[3])
+		seed, _ := strconv.ParseInt(os.Args[4], 10, 64)
+		conc(os.Args[2], rounds, seed, os.Args[5])
 	case "race":
 		sc, err := racerun.ReadScenarios(os.Args[2])
 		if err != nil {
